@@ -2,11 +2,13 @@ package props
 
 import (
 	"fmt"
+	"runtime"
 	"strings"
 	"sync"
 	"testing"
 	"time"
 
+	"github.com/orda-io/orda/client/pkg/iface"
 	"github.com/orda-io/orda/client/pkg/model"
 	"github.com/orda-io/orda/client/pkg/orda"
 	"go.mongodb.org/mongo-driver/bson"
@@ -710,4 +712,194 @@ func c13Footprint(w *l1World, k *l1Key, localDUID string) string {
 	}
 	sb.WriteString("datatypes:\n" + canonDocs(dts) + "\noperations:\n" + canonDocs(ops) + "\nsnapshots:\n" + canonDocs(snaps) + "\nuser:\n" + canonDocs(user))
 	return sb.String()
+}
+
+// c13AgainCell: ONE client asks for a key it already holds a datatype for (the quantifier's
+// "already subscribed by this client", and the same before its first request has been answered).
+type c13AgainCell struct {
+	Kind       sim.Kind `json:"kind"`
+	FirstMode  string   `json:"first_mode"`
+	SecondMode string   `json:"second_mode"`
+	SecondType string   `json:"second_type"` // same | other
+	When       string   `json:"when"`        // before-first-sync | after-first-sync
+	IDSeed     uint64   `json:"id_seed"`
+}
+
+func c13AgainRun(cell c13AgainCell) error {
+	w, e := newL1World(cell.IDSeed, []sim.Kind{cell.Kind})
+	if e != nil {
+		return fmt.Errorf("HARNESS-ERROR: %v", e)
+	}
+	defer w.close()
+	k := w.keys[0]
+	var closers []orda.Client
+	defer func() {
+		for _, c := range closers {
+			c := c
+			watchdog(3*time.Second, func() { _ = c.Close() })
+		}
+	}()
+	newClient := func(alias string) (orda.Client, error) {
+		cl, e := w.env.NewRealClient(w.col, alias, model.SyncType_MANUALLY)
+		if e != nil {
+			return nil, e
+		}
+		if e := cl.Connect(); e != nil {
+			return nil, e
+		}
+		closers = append(closers, cl)
+		return cl, nil
+	}
+	if cell.FirstMode == "subscribe" {
+		owner, e := newClient("owner")
+		if e != nil {
+			return fmt.Errorf("HARNESS-ERROR: %v", e)
+		}
+		od := &c05rDT{key: k, mode: "create"}
+		od.dt = openReal(owner, cell.Kind, k.Name, "create", od.handlers())
+		sim.Exec(cell.Kind, od.dt, c06CheapCall(cell.Kind, 0))
+		if err, hung := syncWithDeadline(owner, l1Deadline); err != nil || hung {
+			return fmt.Errorf("HARNESS-ERROR: cannot prepare the existing datatype: err=%v hung=%v", err, hung)
+		}
+	}
+	actor, e := newClient("actor")
+	if e != nil {
+		return fmt.Errorf("HARNESS-ERROR: %v", e)
+	}
+	d1 := &c05rDT{key: k, mode: cell.FirstMode}
+	d1.dt = openReal(actor, cell.Kind, k.Name, cell.FirstMode, d1.handlers())
+	if cell.When == "after-first-sync" {
+		if err, hung := syncWithDeadline(actor, l1Deadline); err != nil || hung {
+			return fmt.Errorf("the first Sync() fails: err=%v hung=%v", err, hung)
+		}
+		waitHandlers()
+	}
+	if cell.FirstMode != "subscribe" || cell.When == "after-first-sync" { // (a subscriber's operations before it is subscribed are discarded by design)
+		sim.Exec(cell.Kind, d1.dt, c06CheapCall(cell.Kind, 100))
+	}
+	kind2 := cell.Kind
+	if cell.SecondType == "other" {
+		kind2 = otherKind(cell.Kind)
+	}
+	d2 := &c05rDT{key: k, mode: cell.SecondMode}
+	var second iface.Datatype
+	var pan interface{}
+	func() {
+		defer func() { pan = recover() }()
+		second = openRealOrNil(actor, kind2, k.Name, cell.SecondMode, d2.handlers())
+	}()
+	if pan != nil {
+		return fmt.Errorf("asking for the key again (%s, %s type) panicked: %v", cell.SecondMode, cell.SecondType, pan)
+	}
+	d2.mu.Lock()
+	errs2 := append([]string{}, d2.errs...)
+	d2.mu.Unlock()
+	if cell.SecondType == "other" {
+		if len(errs2) == 0 {
+			return fmt.Errorf("%s of a key that this client holds as %s, asked for as %s, was not refused: the error handler of the call was not called (result nil: %v)", cell.SecondMode, cell.Kind, kind2, second == nil)
+		}
+	} else {
+		if len(errs2) != 0 {
+			return fmt.Errorf("asking again for a key of the same type that this client already holds reported errors: %v", errs2)
+		}
+		if second == nil {
+			return fmt.Errorf("asking again for a key of the same type that this client already holds returned nothing")
+		}
+		if cell.FirstMode != "subscribe" || cell.When == "after-first-sync" {
+			if r := sim.Exec(cell.Kind, second, c06CheapCall(cell.Kind, 300)); r.Panic != nil || r.Err != nil {
+				return fmt.Errorf("a call through the datatype returned by the second request failed: panic=%v err=%v", r.Panic, r.Err)
+			}
+		}
+	}
+	for i := 0; i < 2; i++ {
+		if err, hung := syncWithDeadline(actor, l1Deadline); err != nil || hung {
+			return fmt.Errorf("Sync() number %d after the second request fails: err=%v hung=%v", i+1, err, hung)
+		}
+		waitHandlers()
+	}
+	w.env.WaitBackground(3 * time.Second)
+	d1.mu.Lock()
+	subs, errs1 := d1.subs, append([]string{}, d1.errs...)
+	d1.mu.Unlock()
+	if d1.dt.GetState() != model.StateOfDatatype_SUBSCRIBED || subs != 1 || len(errs1) != 0 {
+		return fmt.Errorf("the datatype the client held first is %v with %d SUBSCRIBED events and errors %v after the second request (%s, %s type) and two Sync() calls", d1.dt.GetState(), subs, errs1, cell.SecondMode, cell.SecondType)
+	}
+	n, typ := 0, ""
+	for _, dd := range w.datatypeDocs() {
+		if bstr(bget(dd, "key")) == k.Name {
+			n++
+			typ = bstr(bget(dd, "type"))
+		}
+	}
+	if n != 1 || !strings.EqualFold(typ, string(cell.Kind)) {
+		return fmt.Errorf("%d datatype documents exist for the key (type %q), want one of type %s", n, typ, cell.Kind)
+	}
+	sc, _, err := w.serverCopy(k)
+	if err != nil {
+		return fmt.Errorf("HARNESS-ERROR: server copy: %v", err)
+	}
+	want := sim.Canon(sc.(orda.Datatype).ToJSON())
+	if got := sim.Canon(d1.dt.(orda.Datatype).ToJSON()); got != want {
+		return fmt.Errorf("after syncing, the datatype the client held first shows %s, the server's copy %s", got, want)
+	}
+	if cell.SecondType == "same" {
+		if got := sim.Canon(second.(orda.Datatype).ToJSON()); got != want {
+			return fmt.Errorf("after syncing, the datatype returned by the second request for the key shows %s, the server's copy %s (its operations were not pushed, or it is not the client's datatype for the key)", got, want)
+		}
+		if second.GetState() != model.StateOfDatatype_SUBSCRIBED {
+			return fmt.Errorf("the datatype returned by the second request is %v after two Sync() calls", second.GetState())
+		}
+	}
+	return nil
+}
+
+// openRealOrNil is openReal for calls that may return nothing (refused on the spot).
+func openRealOrNil(cl orda.Client, kind sim.Kind, key, mode string, h *orda.Handlers) (dt iface.Datatype) {
+	defer func() {
+		if r := recover(); r != nil {
+			if _, ok := r.(*runtime.TypeAssertionError); ok {
+				dt = nil // the API returned a nil interface
+				return
+			}
+			panic(r)
+		}
+	}()
+	return openReal(cl, kind, key, mode, h)
+}
+
+// TestC13SameClientAgain: the contract when ONE client asks twice for the same key.
+func TestC13SameClientAgain(t *testing.T) {
+	col := stats.New("C13", t.Name(),
+		"EXHAUSTIVE matrix through REAL clients: one client opens a key (create / subscribe of an existing datatype / subscribe-or-create) and asks for the same key again (3 modes) as the same type or as another type, before its first Sync() or after it (already subscribed), 4 kinds = 144 cells; operations are made through both returned datatypes; "+
+			"oracle: asked for as another type the call is refused (the call's error handler fires) and the datatype held first is undisturbed; asked for as the same type no error fires and the returned datatype is usable: after Sync() it is SUBSCRIBED and shows the server's copy, which contains the operations made through both; the first datatype reports SUBSCRIBED exactly once; one datatype document of the first type for the key; "+
+			"non-trivial = every cell; distinct = the cell")
+	defer col.Flush()
+	shard, nshards := envInt("VERIF_SHARD", 0), envInt("VERIF_NSHARDS", 1)
+	i := 0
+	for _, kind := range sim.AllKinds {
+		for _, m1 := range []string{"create", "subscribe", "subscribe-or-create"} {
+			for _, m2 := range []string{"create", "subscribe", "subscribe-or-create"} {
+				for _, ty := range []string{"same", "other"} {
+					for _, when := range []string{"before-first-sync", "after-first-sync"} {
+						i++
+						if i%nshards != shard {
+							continue
+						}
+						cell := c13AgainCell{Kind: kind, FirstMode: m1, SecondMode: m2, SecondType: ty, When: when, IDSeed: uint64(12000 + i)}
+						if err := c13AgainRun(cell); err != nil {
+							j := &Journal{Property: "C13", Test: t.Name(), Header: cell}
+							col.Flush()
+							if strings.HasPrefix(err.Error(), "HARNESS-ERROR") {
+								fmt.Println(err.Error())
+								t.Fatalf("%v", err)
+							}
+							enumFail(t, "C13", j, "cell %+v: %v", cell, err)
+						}
+						col.Case(true, fmt.Sprintf("again %+v", cell), []string{"first=" + m1, "second=" + m2, "second-type=" + ty, when}, func() interface{} { return cell })
+					}
+				}
+			}
+		}
+	}
+	col.SetExhaustive(true)
 }
